@@ -42,19 +42,22 @@ import (
 func init() { register("c20", runC20) }
 
 type c20Replay struct {
-	Seed    uint64 `json:"seed"`
-	Part    string `json:"part"`
-	Modulus string `json:"modulus,omitempty"`
-	M       int    `json:"m,omitempty"`
-	Index   int    `json:"index,omitempty"`
-	X       string `json:"x,omitempty"`
-	Y       string `json:"y,omitempty"`
-	R       string `json:"r,omitempty"`
-	U       string `json:"u,omitempty"`
-	Label   string `json:"label,omitempty"`
-	A       uint   `json:"a,omitempty"`
-	B       uint   `json:"b,omitempty"`
-	Detail  string `json:"detail"`
+	Seed    uint64   `json:"seed"`
+	Part    string   `json:"part"`
+	Modulus string   `json:"modulus,omitempty"`
+	M       int      `json:"m,omitempty"`
+	Index   int      `json:"index,omitempty"`
+	X       string   `json:"x,omitempty"`
+	Y       string   `json:"y,omitempty"`
+	R       string   `json:"r,omitempty"`
+	U       string   `json:"u,omitempty"`
+	Label   string   `json:"label,omitempty"`
+	A       uint     `json:"a,omitempty"`
+	B       uint     `json:"b,omitempty"`
+	Detail  string   `json:"detail"`
+	Over    string   `json:"over,omitempty"`
+	Call    int      `json:"call,omitempty"`
+	History []string `json:"history,omitempty"`
 }
 
 // ---------------------------------------------------------------------------
@@ -853,13 +856,52 @@ var _ io.Reader = (*c20Reader)(nil)
 
 type c20FxPair struct {
 	sOT, rOT *c20RecOT
+	name     string   // the ot.OT implementation below the gadgets
+	call     int      // transfers made on this initialised pair so far
+	hist     []string // call history of the session (for the replay)
+}
+
+func (pr *c20FxPair) step(what string) {
+	pr.call++
+	pr.hist = append(pr.hist, fmt.Sprintf("call%d: %s", pr.call, what))
+}
+
+func (pr *c20FxPair) history() []string {
+	h := pr.hist
+	if len(h) > 60 {
+		h = h[len(h)-60:]
+	}
+	return append([]string(nil), h...)
+}
+
+// c20OTImpl: every ot.OT implementation of the module whose Send transfers
+// the caller's labels (ot.ROT is a random OT: its Send overwrites the wires,
+// so the chosen-message gadgets cannot run over it).
+type c20OTImpl struct {
+	name string
+	mk   func(r *RNG) ot.OT
+}
+
+func c20OTImpls() []c20OTImpl {
+	return []c20OTImpl{
+		{"co", func(r *RNG) ot.OT { return ot.NewCO(r) }},
+		{"rsa1024", func(r *RNG) ot.OT { return ot.NewRSA(r, 1024) }},
+		{"cot", func(r *RNG) ot.OT { return ot.NewCOT(ot.NewCO(r.Fork()), r, false, false) }},
+		{"cot-malicious", func(r *RNG) ot.OT { return ot.NewCOT(ot.NewCO(r.Fork()), r, true, false) }},
+		{"cot-shared", func(r *RNG) ot.OT { return ot.NewCOT(ot.NewCO(r.Fork()), r, false, true) }},
+	}
 }
 
 func c20NewFxPair(rng *RNG) (*c20FxPair, error) {
+	return c20NewFxPairOver(rng, c20OTImpls()[0])
+}
+
+func c20NewFxPairOver(rng *RNG, impl c20OTImpl) (*c20FxPair, error) {
 	fp, tp := ot.NewPipe()
 	pr := &c20FxPair{
-		sOT: &c20RecOT{OT: ot.NewCO(rng.Fork())},
-		rOT: &c20RecOT{OT: ot.NewCO(rng.Fork())},
+		sOT:  &c20RecOT{OT: impl.mk(rng.Fork())},
+		rOT:  &c20RecOT{OT: impl.mk(rng.Fork())},
+		name: impl.name,
 	}
 	errc := make(chan error, 1)
 	go func() { errc <- pr.rOT.InitReceiver(tp) }()
@@ -871,7 +913,7 @@ func c20NewFxPair(rng *RNG) (*c20FxPair, error) {
 		if err != nil {
 			return nil, err
 		}
-	case <-time.After(20 * time.Second):
+	case <-time.After(60 * time.Second):
 		return nil, fmt.Errorf("InitReceiver timed out")
 	}
 	return pr, nil
@@ -880,6 +922,7 @@ func c20NewFxPair(rng *RNG) (*c20FxPair, error) {
 func c20BLabel(l bmr.Label) SX { return Bytes(l[:]) }
 
 func c20Fx(c *Ctx, pr *c20FxPair, rd *c20Reader, rl bmr.Label, a, b uint, inDomain bool) error {
+	pr.step(fmt.Sprintf("Fx a=%d b=%d rl=%x", a, b, rl[:]))
 	rd.push(rl[:])
 	type res struct {
 		xb  uint
@@ -907,18 +950,18 @@ func c20Fx(c *Ctx, pr *c20FxPair, rd *c20Reader, rl bmr.Label, a, b uint, inDoma
 	case <-time.After(20 * time.Second):
 		return fmt.Errorf("FxReceive timed out (sender error: %v)", sErr)
 	}
-	rep := c20Replay{Seed: c.Seed, Part: "fx", A: a, B: b, Label: fmt.Sprintf("%x", rl[:])}
+	rep := c20Replay{Seed: c.Seed, Part: "fx", A: a, B: b, Label: fmt.Sprintf("%x", rl[:]), Over: pr.name, Call: pr.call, History: pr.history()}
 	if sErr != nil || rr.err != nil {
-		c.Fail("c20:fx:error", fmt.Sprintf("FxSend: %v FxReceive: %v", sErr, rr.err), rep)
+		c.Fail(fmt.Sprintf("c20:Fx:over-%s:call%d:error", pr.name, pr.call), fmt.Sprintf("FxSend: %v FxReceive: %v", sErr, rr.err), rep)
 		return fmt.Errorf("fx failed")
 	}
 	w := pr.sOT.sent[len(pr.sOT.sent)-1]
 	fl := pr.rOT.flags[len(pr.rOT.flags)-1]
 	got := pr.rOT.got[len(pr.rOT.got)-1]
-	c.Hist(fmt.Sprintf("fx:a=%d:b=%d", a, b))
-	c.Eval(fmt.Sprintf("fx:%x:%d:%d", rl[:], a, b), a != 0 && b != 0)
+	c.Hist(fmt.Sprintf("fx:over-%s:a=%d:b=%d", pr.name, a, b))
+	c.Eval(fmt.Sprintf("fx:%s:%d:%x:%d:%d", pr.name, pr.call, rl[:], a, b), a != 0 && b != 0)
 	if len(w) != 1 || len(fl) != 1 || len(got) != 1 {
-		c.Fail("c20:fx:ot-shape", "FxSend/FxReceive did not run exactly one OT of one wire", rep)
+		c.Fail(fmt.Sprintf("c20:Fx:over-%s:call%d:ot-shape", pr.name, pr.call), "FxSend/FxReceive did not run exactly one OT of one wire", rep)
 		return nil
 	}
 	want := w[0].L0
@@ -926,15 +969,15 @@ func c20Fx(c *Ctx, pr *c20FxPair, rd *c20Reader, rl bmr.Label, a, b uint, inDoma
 		want = w[0].L1
 	}
 	if !got[0].Equal(want) {
-		c.Fail("c20:fx:ot-delivery", "the OT delivered a label that is not the chosen one", rep)
+		c.Fail(fmt.Sprintf("c20:Fx:over-%s:call%d:ot-delivery", pr.name, pr.call), "the OT delivered a label that is not the chosen one", rep)
 	}
 	if inDomain {
 		if r^rr.xb != a*b {
 			rep.Detail = fmt.Sprintf("r=%d xb=%d", r, rr.xb)
-			c.Fail(fmt.Sprintf("c20:fx:relation:a=%d:b=%d", a, b), fmt.Sprintf("r^xb = %d, a*b = %d", r^rr.xb, a*b), rep)
+			c.Fail(fmt.Sprintf("c20:Fx:over-%s:call%d:shares-do-not-recombine", pr.name, pr.call), fmt.Sprintf("a=%d b=%d: r^xb = %d, a*b = %d", a, b, r^rr.xb, a*b), rep)
 		}
 		if r > 1 || rr.xb > 1 {
-			c.Fail("c20:fx:share-not-a-bit", fmt.Sprintf("r=%d xb=%d", r, rr.xb), rep)
+			c.Fail(fmt.Sprintf("c20:Fx:over-%s:call%d:share-not-a-bit", pr.name, pr.call), fmt.Sprintf("r=%d xb=%d", r, rr.xb), rep)
 		}
 	}
 	c.Case(L(I(1), c20BLabel(rl), U64(uint64(a)), U64(uint64(b))),
@@ -943,6 +986,7 @@ func c20Fx(c *Ctx, pr *c20FxPair, rd *c20Reader, rl bmr.Label, a, b uint, inDoma
 }
 
 func c20Fxk(c *Ctx, pr *c20FxPair, rd *c20Reader, rl, s bmr.Label, b uint, inDomain bool) error {
+	pr.step(fmt.Sprintf("Fxk s=%x b=%d rl=%x", s[:], b, rl[:]))
 	rd.push(rl[:])
 	type res struct {
 		xb  bmr.Label
@@ -970,19 +1014,19 @@ func c20Fxk(c *Ctx, pr *c20FxPair, rd *c20Reader, rl, s bmr.Label, b uint, inDom
 	case <-time.After(20 * time.Second):
 		return fmt.Errorf("FxkReceive timed out (sender error: %v)", sErr)
 	}
-	rep := c20Replay{Seed: c.Seed, Part: "fxk", B: b, Label: fmt.Sprintf("r=%x s=%x", rl[:], s[:])}
+	rep := c20Replay{Seed: c.Seed, Part: "fxk", B: b, Label: fmt.Sprintf("r=%x s=%x", rl[:], s[:]), Over: pr.name, Call: pr.call, History: pr.history()}
 	if sErr != nil || rr.err != nil {
-		c.Fail("c20:fxk:error", fmt.Sprintf("FxkSend: %v FxkReceive: %v", sErr, rr.err), rep)
+		c.Fail(fmt.Sprintf("c20:Fxk:over-%s:call%d:error", pr.name, pr.call), fmt.Sprintf("FxkSend: %v FxkReceive: %v", sErr, rr.err), rep)
 		return fmt.Errorf("fxk failed")
 	}
 	w := pr.sOT.sent[len(pr.sOT.sent)-1]
 	fl := pr.rOT.flags[len(pr.rOT.flags)-1]
 	got := pr.rOT.got[len(pr.rOT.got)-1]
-	c.Hist(fmt.Sprintf("fxk:b=%d", b))
+	c.Hist(fmt.Sprintf("fxk:over-%s:b=%d", pr.name, b))
 	var zero bmr.Label
-	c.Eval(fmt.Sprintf("fxk:%x:%x:%d", rl[:], s[:], b), b != 0 && !s.Equal(zero))
+	c.Eval(fmt.Sprintf("fxk:%s:%d:%x:%x:%d", pr.name, pr.call, rl[:], s[:], b), b != 0 && !s.Equal(zero))
 	if len(w) != 1 || len(fl) != 1 || len(got) != 1 {
-		c.Fail("c20:fxk:ot-shape", "FxkSend/FxkReceive did not run exactly one OT of one wire", rep)
+		c.Fail(fmt.Sprintf("c20:Fxk:over-%s:call%d:ot-shape", pr.name, pr.call), "FxkSend/FxkReceive did not run exactly one OT of one wire", rep)
 		return nil
 	}
 	want := w[0].L0
@@ -990,10 +1034,10 @@ func c20Fxk(c *Ctx, pr *c20FxPair, rd *c20Reader, rl, s bmr.Label, b uint, inDom
 		want = w[0].L1
 	}
 	if !got[0].Equal(want) {
-		c.Fail("c20:fxk:ot-delivery", "the OT delivered a label that is not the chosen one", rep)
+		c.Fail(fmt.Sprintf("c20:Fxk:over-%s:call%d:ot-delivery", pr.name, pr.call), "the OT delivered a label that is not the chosen one", rep)
 	}
 	if !r.Equal(rl) {
-		c.Fail("c20:fxk:r-not-newlabel", "FxkSend did not return the label NewLabel produced", rep)
+		c.Fail(fmt.Sprintf("c20:Fxk:over-%s:call%d:r-not-newlabel", pr.name, pr.call), "FxkSend did not return the label NewLabel produced", rep)
 	}
 	if inDomain {
 		// r xor xb = b*s, computed here byte by byte (not with Label.Mul/Xor)
@@ -1004,7 +1048,7 @@ func c20Fxk(c *Ctx, pr *c20FxPair, rd *c20Reader, rl, s bmr.Label, b uint, inDom
 			}
 			if r[i]^rr.xb[i] != wantB {
 				rep.Detail = fmt.Sprintf("r=%x xb=%x byte %d", r[:], rr.xb[:], i)
-				c.Fail(fmt.Sprintf("c20:fxk:relation:b=%d", b), fmt.Sprintf("r^xb = %x, b*s = %x (b=%d)", c20XorBytes(r[:], rr.xb[:]), s[:], b), rep)
+				c.Fail(fmt.Sprintf("c20:Fxk:over-%s:call%d:shares-do-not-recombine", pr.name, pr.call), fmt.Sprintf("r^xb = %x, s = %x, b=%d", c20XorBytes(r[:], rr.xb[:]), s[:], b), rep)
 				break
 			}
 		}
@@ -1042,6 +1086,96 @@ func c20EdgeLabel(r *RNG, k int) bmr.Label {
 		copy(l[:], r.Bytes(len(l)))
 	}
 	return l
+}
+
+// c20Direct runs one plain transfer of n wires on the pair (the session then
+// continues with gadget calls): the delivered labels must be the chosen ones.
+func c20Direct(c *Ctx, pr *c20FxPair, rng *RNG, n int) error {
+	pr.step(fmt.Sprintf("OT transfer of %d wires", n))
+	wires := make([]ot.Wire, n)
+	flags := make([]bool, n)
+	for i := range wires {
+		wires[i] = ot.Wire{L0: ot.Label{D0: rng.U64(), D1: rng.U64()}, L1: ot.Label{D0: rng.U64(), D1: rng.U64()}}
+		flags[i] = rng.Bool()
+	}
+	orig := append([]ot.Wire(nil), wires...)
+	got := make([]ot.Label, n)
+	ch := make(chan error, 1)
+	go func() { ch <- c20Protect(func() error { return pr.rOT.Receive(flags, got) }) }()
+	sErr := c20Protect(func() error { return pr.sOT.Send(wires) })
+	var rErr error
+	select {
+	case rErr = <-ch:
+	case <-time.After(30 * time.Second):
+		return fmt.Errorf("OT Receive timed out over %s (sender error: %v)", pr.name, sErr)
+	}
+	rep := c20Replay{Seed: c.Seed, Part: "ot", M: n, Over: pr.name, Call: pr.call, History: pr.history()}
+	if sErr != nil || rErr != nil {
+		c.Fail(fmt.Sprintf("c20:OT:over-%s:call%d:error", pr.name, pr.call), fmt.Sprintf("Send: %v Receive: %v", sErr, rErr), rep)
+		return fmt.Errorf("ot transfer failed")
+	}
+	c.Hist(fmt.Sprintf("ot:over-%s:n=%d", pr.name, n))
+	c.Eval(fmt.Sprintf("ot:%s:%d:%d", pr.name, pr.call, n), true)
+	for i := range orig {
+		want := orig[i].L0
+		if flags[i] {
+			want = orig[i].L1
+		}
+		if !got[i].Equal(want) {
+			rep.Index = i
+			c.Fail(fmt.Sprintf("c20:OT:over-%s:call%d:ot-delivery", pr.name, pr.call), fmt.Sprintf("wire %d of %d: delivered label is not the chosen one", i, n), rep)
+			break
+		}
+	}
+	return nil
+}
+
+// c20FxHistories: the gadgets over EVERY ot.OT implementation, many calls on
+// one initialised pair (as bmr.Player uses peer.otSender / peer.otReceiver:
+// one single-wire transfer per gate), Fx and Fxk interleaved, with plain
+// transfers of other sizes (not divisible by the OT batch size, equal to it,
+// above it) in between so that per-session state of the implementation is
+// met in every phase.  The oracle is the unchanged share relation, per call.
+func c20FxHistories(c *Ctx, rng *RNG, rd *c20Reader) error {
+	for _, impl := range c20OTImpls() {
+		pr, err := c20NewFxPairOver(rng, impl)
+		if err != nil {
+			c.Fail(fmt.Sprintf("c20:Fx:over-%s:init", impl.name), err.Error(), c20Replay{Seed: c.Seed, Part: "fx", Over: impl.name})
+			continue
+		}
+		rounds := c.N(3, 12)
+		sizes := []int{3, 8, 9, 1, 17}
+		for round := 0; round < rounds; round++ {
+			for a := uint(0); a < 2; a++ {
+				for b := uint(0); b < 2; b++ {
+					if err := c20Fx(c, pr, rd, c20EdgeLabel(rng, 6+round), a, b, true); err != nil {
+						return err
+					}
+					s := c20EdgeLabel(rng, int(2*a+b)+4*round)
+					if err := c20Fxk(c, pr, rd, c20EdgeLabel(rng, 99), s, (a+b)%2, true); err != nil {
+						return err
+					}
+				}
+			}
+			if err := c20Direct(c, pr, rng, sizes[round%len(sizes)]); err != nil {
+				return err
+			}
+		}
+		// after the mixed sizes: again single-wire gadget calls
+		for a := uint(0); a < 2; a++ {
+			for b := uint(0); b < 2; b++ {
+				if err := c20Fx(c, pr, rd, c20EdgeLabel(rng, 99), a, b, true); err != nil {
+					return err
+				}
+				if err := c20Fxk(c, pr, rd, c20EdgeLabel(rng, 99), c20EdgeLabel(rng, 99), b, true); err != nil {
+					return err
+				}
+			}
+		}
+		c.Note("gadget history over %s: %d transfers on one pair", impl.name, pr.call)
+	}
+	c.Note("ot.ROT is a random OT (Send overwrites the offered wires): the chosen-message gadgets Fx/Fxk do not apply to it")
+	return nil
 }
 
 func c20RunFx(c *Ctx) error {
@@ -1087,6 +1221,9 @@ func c20RunFx(c *Ctx) error {
 		if err := c20Fxk(c, pr, rd, c20EdgeLabel(rng, 99), c20EdgeLabel(rng, 99), b, false); err != nil {
 			return err
 		}
+	}
+	if err := c20FxHistories(c, rng, rd); err != nil {
+		return err
 	}
 	if rd.short > 0 {
 		c.Note("crypto/rand reader was asked for %d bytes more than queued", rd.short)
